@@ -1,3 +1,5 @@
+#[cfg(naijascript_verif)]
+use crate::sys::verif_shim::fake_std as std;
 use std::io::{self, Read, Write};
 use std::process::{Child, Command, Stdio};
 use std::sync::Arc;
